@@ -200,7 +200,9 @@ Definition binary_op (o : binopc) (t : irty) (h : heap) (a b : val) : res (heap 
   | BOther _ => Err EICE
   | BVMulS | BVDivS =>
       match get_list h a with
-      | Some l => do vs <- map_res (fun v => scalar_op (match o with BVMulS => BMul | _ => BDiv end) false v b) l;
+      | Some l => (* VECTOR_DIV_SCALAR divides like the scalar DIV arm: truncating when the element type is an integer type *)
+                  let int_elem := match t with ITVec (ITInt _) _ => true | _ => false end in
+                  do vs <- map_res (fun v => scalar_op (match o with BVMulS => BMul | _ => BDiv end) int_elem v b) l;
                   let '(h1, ad) := alloc h (OList vs) in Ok (h1, VRef ad)
       | None => match a with VRef _ => Unmodelled | _ => Err EType end
       end
